@@ -32,6 +32,20 @@ def setup_hdf(f, data, attr):
         )
     for k, it in attr.items():
         f.attrs[k] = it
+    f.attrs["nrows"] = 0
+
+
+def committed_rows(f, key="block"):
+    """
+    Number of blocks that were written completely to f by append_hdf.
+
+    Rows beyond this number are left over from a write that failed part-way and
+    must not be used. Files written by older versions have no row counter; for
+    those the length of dataset `key` is returned.
+    """
+    if "nrows" in f.attrs:
+        return int(f.attrs["nrows"])
+    return f[key].shape[0] if key in f.keys() else 0
 
 
 def append_hdf(f, data):
@@ -41,16 +55,29 @@ def append_hdf(f, data):
     f should be an h5py file object
     data should be a dictionary of numpy arrays that represent one block.
 
+    The block is row number f.attrs["nrows"] of every dataset, and the counter is
+    advanced only after all datasets have been written. If a previous call failed
+    part-way, its partial rows are overwritten (and longer datasets truncated),
+    so that row i of every dataset always belongs to the same block.
     """
+    if "nrows" in f.attrs:
+        nrows = int(f.attrs["nrows"])
+    else:
+        lengths = set(f[k].shape[0] for k in data.keys() if k in f.keys())
+        if len(lengths) > 1:
+            raise RuntimeError(
+                "Datasets have different numbers of rows; a previous write to this file failed part-way."
+            )
+        nrows = lengths.pop() if len(lengths) > 0 else 0
     for k, it in data.items():
         if k not in f.keys():
             itnp = np.array(it)
             f.create_dataset(
                 k, (0, *itnp.shape), maxshape=(None, *itnp.shape), dtype=itnp.dtype
             )
-        currshape = f[k].shape
-        f[k].resize((currshape[0] + 1, *currshape[1:]))
-        f[k][-1,] = it
+        f[k].resize((nrows + 1, *f[k].shape[1:]))
+        f[k][nrows,] = it
+    f.attrs["nrows"] = nrows + 1
 
 
 if __name__ == "__main__":
